@@ -930,7 +930,17 @@ def gen_schemas():
 
 HEADER = "-- GENERATED by tools/translate.py from {src}. Do not edit: regenerated on every check run.\n"
 
+def gen_store_fns():
+    sys.path.insert(0, os.path.dirname(os.path.abspath(__file__)))
+    import translate_store
+    try:
+        return translate_store.gen(read("node/libs/engine/src/block_store.rs"))
+    except translate_store.TErr as e:
+        raise TranslateError(f"block_store.rs: {e}")
+
+
 TARGETS = {
+    "StoreFns": gen_store_fns,
     "Thresholds": gen_thresholds,
     "NoiseConst": gen_noise_const,
     "MuxConst": gen_mux_const,
